@@ -19,9 +19,10 @@ CHECKS = {
    cat="proof", technique="Lean 4 theorems over an exact Gram/Schur model (greedy rule = max MGS residual) + ε-acceptance of real pivot traces",
    text="qr_pick_max_mgs_residual proves that every pick of the exact model has the largest modified-Gram–Schmidt residual among "
         "unranked sensors (with the orthogonal-residual characterisation, independence of leading rows, CCQR()/GQR() = QR in the model); "
-        "real QR/CCQR/GQR/SSPOR traces are replayed through the model's executable definitions with budget 1e-9·scale and per-step norm taps.",
+        "householder_loop_refines_schur_model proves that the elimination loop of CCQR.fit over the reals (any pivot sequence, any rank) has exactly the model's Gram state, and code_argmax_is_model_argmax that argmax(dlens − costs) is the model's decision; "
+        "real QR/CCQR/GQR/SSPOR traces are replayed through the model's executable definitions with per-step budgets 1e-12·scale·conditioning and per-step norm taps.",
    ref="DESIGN.md §5 C03",
-   note="Floating point is not modelled: ties within the budget are accepted either way and traces after a (near-)zero exact pivot with non-zero float residual are not judged (counted); the Householder update itself is tied to the Schur step by the per-step norm tap, not by proof; LAPACK geqp3 trusted but judged on each sample."),
+   note="Floating point is not modelled: ties within the budget are accepted either way and traces after an exactly-zero pivot with non-zero float residual are not judged (counted); that the float code is the algorithm of the loop theorem is tied by the per-step norm tap and the pivot traces; LAPACK geqp3 trusted but judged on each sample."),
  "C04": dict(
    cat="proof", technique="Lean 4 theorems (exact decision of sqrt(a)-c >= sqrt(b)-d against Real.sqrt; greedy maximality; shift invariance) + replay of tapped CCQR traces",
    text="ccqr_greedy_max (for every residual system and cost vector the pick maximises √resid²−cost over the reals), ccqr_shift_invariant, "
@@ -112,17 +113,18 @@ CHECKS = {
    ref="DESIGN.md §5 C17",
    note="PARTIAL on rounding (budgeted). numpy.linalg.det/norm are parameters."),
  "C18": dict(
-   cat="proof", technique="Lean 4 theorems (model run reads B only through its Gram matrix; Gram invariance under right-orthogonal mixing; simulation principle => invariance under positive rescaling) + metamorphic pairs on the real optimizers and SSPOR",
-   text="run_depends_on_gram_only, gram_mul_orthogonal, row_dot_mul_orthogonal, gram_eq_of_dots, greedy_simulation, scale_invariant; real QR/CCQR/GQR(all options)/SSPOR runs are compared on exactly representable transforms "
+   cat="proof", technique="Lean 4 theorems (model run reads B only through its Gram matrix; Gram invariance under right-orthogonal mixing; simulation principle => invariance under positive rescaling; position-free characterisation of tie-free rankings => relabelling equivariance) + metamorphic pairs on the real optimizers and SSPOR",
+   text="run_depends_on_gram_only, gram_mul_orthogonal, row_dot_mul_orthogonal, gram_eq_of_dots, greedy_simulation, scale_invariant, strict_ranking_unique, ranking_relabel_equivariant, run_without_ties_is_strict; real QR/CCQR/GQR(all options)/SSPOR runs are compared on exactly representable transforms "
         "(signed permutations, Pythagorean rotations, powers of two, sensor relabellings) where the exact choices are unique.",
    ref="DESIGN.md §5 C18",
-   note="PARTIAL: relabelling equivariance (clause c) is checked on the real code only (metamorphic), no Lean theorem; pairs with non-unique exact choices are skipped and counted."),
+   note="Relabelling can change the result exactly at ties (numpy's argmax is positional): the theorem and the comparison are for tie-free base runs; pairs with non-unique exact choices are skipped and counted."),
  "C19": dict(
-   cat="proof", technique="Lean 4 theorems over all values of each invalid class for every guard / setter / update transition + exhaustive execution of the entry-point x value-class x life-phase table on the real objects",
+   cat="proof", technique="Lean 4 theorems over all values of each invalid class for every guard / setter / update transition + guard decision trees REGENERATED from the current source by an AST translator, each proved equal to the model's guard function on every run + exhaustive execution of the entry-point x value-class x life-phase table on the real objects",
    text="sspor_ctor_spec, sspor_set_invalid/_unfitted, sspor_update_invalid/_needs_data/_too_many, sspoc_update_invalid/_neither/_unfitted, basisCtor_spec, basisRep_spec, predict_guard_spec, full_state_guard_spec, ccqr_costs_spec, gqr_option_spec, "
-        "box_contradictory (+ setN_rejected_unchanged, update_rejected_unchanged); the same table (675 cells) is executed on the real code, outcomes and before/after observables compared.",
+        "box_contradictory (+ setN_rejected_unchanged, update_rejected_unchanged, sspor_setter_is_its_guard, sspor_ctor_is_its_guard, sspoc_update_sensors_is_its_guard, box_guard_is_its_tree_spec); harness/translate_guards.py regenerates 23 guard trees from the source "
+        "(theorems guard_<entry point> in Generated/Guards.lean, re-checked by lake and audited for axioms); the table (about 700 cells) is executed on the real code, outcomes and before/after observables compared.",
    ref="DESIGN.md §5 C19",
-   note="Holds after fix 3748913. One listed known finding: a fit/update on narrower data is rejected only after the basis was refitted (predictions change)."),
+   note="Holds after fix 3748913. One listed known finding: a fit/update on narrower data is rejected only after the basis was refitted (predictions change). The guard translator ignores statements that are not checks and does not follow callees; atoms are named by source text, so a renaming breaks the generated proof (reported as no-failing-input-found when the table finds nothing)."),
  "C20": dict(
    cat="proof", technique="Lean 4 soundness theorem for a may-alias check + obligations REGENERATED from the current source by an AST translator and re-checked by the kernel on every run + dynamic snapshot / read-only sweep",
    text="analysis_sound (proved once): check prog = true => along every execution no protected buffer is written. harness/translate_alias.py re-derives the alias program of every package function containing an in-place write from the AST on every run; "
